@@ -276,6 +276,10 @@ def who_may(chk, P, prefix):
             for path in b.acyclic_paths(0, rb):
                 if (clears[0].bb in path) != (incs[0].bb in path):
                     return False, "a path clears the queue without counting it (or counts without clearing)", [], clears[0].loc
+        # "the truncation counter increases by one": increment(), or increment_by a constant 1 - not by a quantity read off the queue
+        if incs[0].callee.get("name") == "increment_by" and mir.o_const_value(b.origin(incs[0].args[1])) != 1:
+            return False, ("a truncation adds %s to queue_full_truncated, not one (a length read after clear() is always 0: the counter would "
+                           "never move)" % o_str(b.origin(incs[0].args[1]))), [], incs[0].loc
         return True, "", [clears[0].loc, incs[0].loc]
     chk.ob("%s.R3:truncation-counted" % prefix, "an overflow truncation and its counter increment happen on exactly the same paths", truncation_counted)
 
